@@ -119,7 +119,12 @@ pub fn extract(cx: &mut Ctx) -> Value {
                                 _ => None,
                             })
                             .collect();
+                        let desc = match crate::descr::describe(f) {
+                            Ok(d) => d,
+                            Err(e) => json!({"unrecognised": e}),
+                        };
                         methods.push(json!({
+                            "desc": desc,
                             "file": rel,
                             "name": f.sig.ident.to_string(),
                             "public": public,
